@@ -56,6 +56,7 @@ class Check(BaseCheck):
 
     def translate(self):
         extract.gen_fem()
+        extract.gen_flow()
 
     def flow_cases(self, seed, n):
         rng = gen.rng_for(seed, "c19")
